@@ -13,6 +13,9 @@ RULE = ('arrangements of n instances (labelled by creation order) into a set of 
         "phrases and int / 'Rn' ids; expected order built constructively by the harness (chains in order of their "
         'head in the input set, from the member without a partner across the phrase along the opposite phrase; '
         'the other phrase gives each chain reversed; a ring once around from the first member of the set). '
+        'Half of the arrangements are built through a detour history (links made and removed, refused relates, deleted '
+        'neighbours) and a third of those are also sorted while being built (before the first relate and after every finished '
+        'chain): a sort is a query and must not change a later answer. '
         'Exhaustive for small n (see exhaustive_parts), Hypothesis for n <= 40, plus a termination-only domain '
         '(subsets of chains, ring+chain mixtures: returns in time, no duplicates, only members). '
         'non-trivial = >= 2 chains, one of length >= 2, and succession order differs from creation order; '
@@ -30,12 +33,14 @@ SCHEMA = {'classes': [{'name': 'P', 'attrs': [['Id', 'UNIQUE_ID'], ['Prev_Id', '
           'uniques': [{'cls': 'P', 'name': 'I1', 'attrs': ['Id']}]}
 
 
-def build(n, chains, rings=(), detour=False):
+def build(n, chains, rings=(), detour=False, probe=None):
     """chain [c0, c1, ..]: c0 refers to c1 ('prev' from c0 reaches c1, 'next' from c1 reaches c0).
     detour: the instances were first linked into one chain in creation order (and partly the other way round) and
     unlinked again - the succession order is a function of the present links only."""
     m = build_api(SCHEMA)
     inst = [m.new('P') for _ in range(n)]
+    if probe:
+        probe(m, inst, [])             # nothing related yet: every instance is a chain of its own
     if detour and n >= 2:
         for a, b in zip(range(n), range(1, n)):
             assert xtuml.relate(inst[a], inst[b], 4, 'prev')
@@ -43,9 +48,11 @@ def build(n, chains, rings=(), detour=False):
             assert xtuml.unrelate(inst[a], inst[b], 4, 'prev')
         assert xtuml.relate(inst[n - 1], inst[0], 4, 'prev')
         assert xtuml.unrelate(inst[0], inst[n - 1], 4, 'next')
-    for ch in chains:
+    for k, ch in enumerate(chains):
         for a, b in zip(ch, ch[1:]):
             assert xtuml.relate(inst[a], inst[b], 4, 'prev')
+        if probe and len(ch) >= 2 and k + 1 < len(chains):
+            probe(m, inst, chains[:k + 1])          # sorting is a query: asking early changes no later answer
     if detour and chains:
         # two further instances stood at both ends of the first chain and were deleted again
         ch = chains[0]
@@ -105,10 +112,23 @@ def expected_ring(ring, order, phrase):
 def check_sort(chains, order, case, rings=(), n=None):
     n = n if n is not None else sum(len(c) for c in chains) + sum(len(r) for r in rings)
     detour = (sum(order) + len(chains) + n) % 2 == 1 if case.get('detour') is None else case['detour']
-    m, inst = build(n, chains, rings, detour=detour)
+
+    def probe(m, inst, done):
+        # the arrangement while it is being built: the chains finished so far, every other instance on its own
+        rest = set(range(n)) - set(x for ch in done for x in ch)
+        sort_and_compare(m, inst, list(done) + [[x] for x in sorted(rest)], order, case, (), n, early=True)
+
+    early = detour and not rings and (sum(order) + n) % 3 != 0
+    m, inst = build(n, chains, rings, detour=detour, probe=probe if early else None)
+    sort_and_compare(m, inst, chains, order, case, rings, n)
+
+
+def sort_and_compare(m, inst, chains, order, case, rings, n, early=False):
     idx = dict((id(x), i) for i, x in enumerate(inst))
     for phrase in ('prev', 'next'):
         for rel in (4, 'R4'):
+            if early and rel == 'R4':
+                continue
             if list(order) == list(range(n)) and rel == 4:
                 qs = m.select_many('P')
             else:
@@ -129,7 +149,7 @@ def check_sort(chains, order, case, rings=(), n=None):
                 want = None
             if want is not None and got != want:
                 kind = 'ring' if rings else 'chains'
-                raise Violation('wrong-order-%s' % kind, case,
+                raise Violation('wrong-order-%s%s' % (kind, '-while-building' if early else ''), case,
                                 'phrase %r rel %r: got %r want %r' % (phrase, rel, got, want))
             if len(set(got)) != len(got):
                 raise Violation('duplicates', case, 'got %r' % got)
